@@ -1612,6 +1612,8 @@ def _desc(case):
         a = case.get("arg")
         return (f"op {case['op']} {case['rep']} mean{np.array(case['mu']).shape} cov{np.array(case['S']).shape} "
                 f"arg={a if not isinstance(a, dict) else (a['rep'], np.array(a['mu']).shape)}")
+    if k == "fsample":
+        return (f"fsample {case['rep']} mean{np.array(case['mu']).shape} ss={case['ss']} before={case['pre']} derive={case.get('derive')}")
     if k == "init":
         return f"init {case['rep']} mean{np.array(case['mu']).shape} cov{np.array(case['S']).shape}"
     if k == "hist":
@@ -1662,6 +1664,7 @@ def all_cases(ctx):
     cases += hist_cases(ctx, ctx.rng("hist"))
     cases += warm_cases(ctx, ctx.rng("warm"))
     cases += init_cases(ctx, ctx.rng("init"))
+    cases += fsample_cases(ctx, ctx.rng("fsample"))
     cases += getitem_var_cases(ctx, ctx.rng("getitem-var"))
     return cases
 
@@ -2374,6 +2377,125 @@ def warm_cases(ctx, rng, deep=False):
                 for ops in (derive if (heavy or not quick) else rng.sample(derive, 6)):
                     out.append(dict(base(n, pre), ops=ops))
     return out
+
+
+# =============================================================== rsample() WITHOUT base_samples, made deterministic
+
+def run_fsample(case):
+    """`torch.manual_seed(s); z = d.rsample(sample_shape)` on a cold or warmed (optionally expanded / unsqueezed) object.
+    The standard-normal draw the sampler consumed is recovered by re-seeding (`torch.randn(*batch, k, S)`, the layout of
+    linear_operator's `zero_mean_mvn_samples`; `(S, *batch, k)` for a DiagLinearOperator) and put into the public layout
+    `sample_shape + batch + (k,)` (the permutation of `gen_rsample_entry_map`).  Required: z == mean + R eps exactly (driver,
+    generated `rsampleCore`, R = the root the object uses), z == `rsample(base_samples=eps)` of a fresh twin, and
+    z == the seeded `rsample()` of a cold twin (sampling does not depend on what was computed on the object before)."""
+    import torch
+    np = _np()
+    mu, S, A = (np.array(case[k]) for k in ("mu", "S", "A"))
+    rep, ss, pre, derive, seed = case["rep"], tuple(case["ss"]), case["pre"], case.get("derive"), case["seed"]
+    n, B = mu.shape[-1], mu.shape[:-1]
+    pre_s = "ALL-CACHES" if list(pre) == list(WARMERS) else pre
+    where = f"{rep} batch={B} n={n} sample_shape={ss} uses-before={pre_s} derive={derive}"
+    Sn = int(np.prod(ss)) if ss else 1
+
+    def der(x):
+        if derive is None:
+            return x
+        return x.expand(torch.Size((2,) + B)) if derive == "expand" else x.unsqueeze(0)
+    err, out = None, {}
+    try:
+        with warnings.catch_warnings():
+            warnings.simplefilter("ignore")
+            d = make_dist(rep, mu, S, A)
+            k = int(d.base_sample_shape[-1])
+            for u in pre:
+                _use(d, u, torch.tensor(mu, dtype=torch.float64), k)
+            r = der(d)
+            B2 = tuple(r.batch_shape)
+            torch.manual_seed(seed)
+            out["z"] = r.rsample(torch.Size(ss)).detach().numpy()
+            cold = der(make_dist(rep, mu, S, A))
+            torch.manual_seed(seed)
+            out["zc"] = cold.rsample(torch.Size(ss)).detach().numpy()
+            torch.manual_seed(seed)
+            if rep == "diag":
+                eps = torch.randn(Sn, *B2, k).view(*ss, *B2, k)
+            else:
+                eps = torch.randn(*B2, k, Sn).permute(-1, *range(len(B2) + 1)).contiguous().view(*ss, *B2, k)
+            twin = der(make_dist(rep, mu, S, A))
+            out["ref"] = twin.rsample(base_samples=eps).detach().numpy()
+            R = twin.lazy_covariance_matrix.root_decomposition().root.to_dense().detach().numpy()
+            out["R"] = np.broadcast_to(R, B2 + R.shape[-2:])
+            out["eps"], out["B2"] = eps.numpy(), B2
+            out["mean"] = np.broadcast_to(twin.mean.detach().numpy(), B2 + (n,))
+    except Exception as e:
+        err = e
+    lines, slots = [], []
+    if err is None and out["R"].shape[-1] == out["eps"].shape[-1] and out["R"].shape[-2] == n:
+        for s_ in list(itertools.product(*[range(t) for t in ss]))[:2]:
+            for b in itertools.product(*[range(t) for t in out["B2"]]):
+                lines.append(f"rsample {C.vec_tokens(out['mean'][b])} {C.mat_tokens(out['R'][b])} {C.vec_tokens(out['eps'][s_ + b])}")
+                slots.append(s_ + b)
+
+    def judge(replies):
+        res = {"status": "compared", "fails": [], "broke": []}
+        cls = "cold" if not pre else "warm"
+
+        def fail(obs, msg):
+            res["fails"].append((f"rsample-free:{obs}:{cls}" + (f":{derive}" if derive else ""), f"{where}: {msg}"))
+        if err is not None:
+            res["status"] = f"raised:{type(err).__name__}"
+            fail("raises", f"raises {type(err).__name__}: {str(err)[:160]}")
+            return res
+        z = out["z"]
+        want_shape = ss + out["B2"] + (n,)
+        if z.shape != want_shape:
+            fail("shape", f"rsample(sample_shape) has shape {z.shape}, expected {want_shape}")
+            return res
+        sc = np.maximum(1.0, np.abs(out["ref"]))
+        if out["ref"].shape != z.shape or not np.all(np.abs(z - out["ref"]) <= 1e-9 * sc):
+            dev = float(np.max(np.abs(z - out["ref"]))) if out["ref"].shape == z.shape else float("nan")
+            fail("pipeline", f"seeded rsample() differs from rsample(base_samples=eps) of a fresh twin for the recovered draw eps (max dev {dev:.3g}): "
+                 f"the sample is not mean + R eps for the root R the distribution uses")
+        if out["zc"].shape != z.shape or not np.all(np.abs(z - out["zc"]) <= 1e-9 * sc):
+            dev = float(np.max(np.abs(z - out["zc"]))) if out["zc"].shape == z.shape else float("nan")
+            fail("history", f"same seed, same parameters: rsample() of this object differs from rsample() of a cold twin (max dev {dev:.3g})")
+        for o, rp in zip(slots, replies):
+            rows, _ = C.parse_mat(rp.split(), 0)
+            want = np.array([float(r_[0]) for r_ in rows])
+            if not np.all(np.abs(z[o] - want) <= 1e-9 * np.max(np.abs(want), initial=1.0)):
+                fail("value", f"rsample(){list(o)} = {z[o].tolist()}, mean + R eps = {want.tolist()} (R = root_decomposition().root, eps = the recovered draw)")
+                break
+        return res
+    return lines, judge
+
+
+def fsample_cases(ctx, rng):
+    quick = ctx.tier == "quick"
+    out = []
+    ALL = list(WARMERS)
+    singles = [[w] for w in WARMERS]
+    sss = [(), (3,), (2, 2)]
+    for rep in REPS_ALL:
+        for b in [(), (2,), (2, 3)]:
+            def mk(pre, ss, derive=None):
+                n = rng.randint(2, 4)
+                mu, A, S = gen_params(rng, b, n, kind=_kind(rep))
+                return {"kind": "fsample", "rep": rep, "mu": mu, "S": S, "A": A, "ss": list(ss), "pre": pre, "derive": derive,
+                        "seed": rng.randint(0, 10 ** 6)}
+            for ss in sss:
+                out.append(mk([], ss))
+                out.append(mk(ALL, ss))
+            for pre in (singles if not quick else rng.sample(singles, 2)):
+                out.append(mk(pre, rng.choice(sss)))
+            for derive in ("expand", "unsqueeze"):
+                out.append(mk(ALL, rng.choice(sss), derive))
+                if not quick:
+                    out.append(mk([], rng.choice(sss), derive))
+                    out.append(mk(["scale_tril"], rng.choice(sss), derive))
+    return out
+
+
+RUNNERS["fsample"] = run_fsample
 
 
 # =============================================================== __init__: mean / covariance batch broadcast
